@@ -63,7 +63,7 @@ def run(ctx):
         pool_d += [g.string(rng.choice([1, 2]), rng.choice([8, 25, 60])) for _ in range(25)]
     # refused strings whose error is met deep inside nested branches (whatever a call had set up on the way in, it must
     # be gone after the exception), and a very long one
-    pool_d += ["[C][Branch1][C]" * d + "[Foo]" + "[C]" * 3 for d in (40, 150, 400)]
+    pool_d += ["[S][Branch1][P]" * d + "[Foo]" + "[C]" * 3 for d in (40, 150, 400)]
     pool_d += ["[S][=Branch1][P]" * 300 + "[Branch9]", "[C][C][Ring1][C]" * 50 + "[CH9]"]
     pool_e = []
     for _ in range(40):
@@ -141,7 +141,14 @@ def run(ctx):
             if h % 8 == 3:
                 # scale: a molecule with 100 or more ring bonds (whatever the writer does with label 100 - finding F1 - it
                 # does the same in a fresh interpreter)
-                probes.append(["d", rng.choice(["[C][C][C][Ring1][Ring1]", "[N][C][C][C][Ring1][Ring2]"]) * rng.choice([100, 120, 160]), {}])
+                k_ = rng.choice([100, 120, 160])
+                if rng.random() < 0.5:
+                    probes.append(["d", rng.choice(["[C][C][C][Ring1][Ring1]", "[N][C][C][C][Ring1][Ring2]"]) * k_, {}])
+                else:
+                    # ... all of them inside one large ring that stays open from the first atom to the last
+                    big = call_guard(lambda: sf.encoder("C1" + rng.choice(["C2CC2", "N2CC2", "C2CCC2"]) * k_ + "C1", strict=False), expected=(sf.EncoderError,))
+                    if big[0] == "ok":
+                        probes.append(["d", big[1], {}])
                 ctx.count("probes_with_100_or_more_rings")
             res = [call(sf, k, x, fl) for k, x, fl in probes]
             again = [call(sf, k, x, fl) for k, x, fl in probes]
